@@ -171,7 +171,7 @@ func checkPairingToken(p *Prog, ru *Rule, fn *ssa.Function, dirs map[string][]ss
 						reach = true
 						continue
 					}
-					q := reachQ{From: Loc{t.If.Block().Succs[nonNil], -1}, Target: func(i ssa.Instruction) bool { return i == site }}
+					q := reachQ{From: edgeLoc(t.If.Block(), nonNil), Target: func(i ssa.Instruction) bool { return i == site }}
 					if nil != q.run() {
 						reach = true
 					}
@@ -308,6 +308,14 @@ func freshParts(fn *ssa.Function, v ssa.Value) (bool, string, []genUse) {
 						}
 					}
 				})
+				return
+			}
+			/* new(big.Int).SetUint64(x) and friends carry x. */
+			switch name {
+			case "(*math/big.Int).SetUint64", "(*math/big.Int).SetInt64", "(*math/big.Int).SetBytes", "(*math/big.Int).Set":
+				for _, a := range x.Common().Args[1:] {
+					walk(a)
+				}
 				return
 			}
 			/* Formatting/encoding wrappers of a fresh value. */
